@@ -6,6 +6,7 @@ import (
 	"flag"
 	"fmt"
 	"os"
+	"runtime/pprof"
 	"strconv"
 )
 
@@ -41,6 +42,11 @@ func main() {
 	}
 	sd, _ := strconv.ParseUint(*seed, 10, 64)
 	c := &Ctx{Tier: *tier, Seed: sd, Out: NewOut(*out), Replay: *replay, N: *n, Only: *only}
+	if pf := os.Getenv("VERIF_PPROF"); pf != "" {
+		fh, _ := os.Create(pf)
+		pprof.StartCPUProfile(fh)
+		defer pprof.StopCPUProfile()
+	}
 	f(c)
 	c.Out.Close()
 }
